@@ -54,7 +54,10 @@ pub struct Job {
 pub const PS: [f32; 4] = [1.0, 0.5, 0.1, 0.01];
 const NSD: [NumStdDev; 3] = [NumStdDev::One, NumStdDev::Two, NumStdDev::Three];
 const NOMINAL: [f64; 3] = [0.6827, 0.9545, 0.9973];
-const SLACK: [f64; 3] = [0.05, 0.025, 0.006];
+// allowance below the nominal coverage on top of the 6-sigma binomial margin. Calibrated on the unchanged tree at
+// T = 20 000 (11 826 cell x level readings): at 1 and 2 sigma every deficit is within 3.3 binomial sd of nominal (pure
+// noise); at 3 sigma HLL lg_k 14 around n = 1500 sits 0.0045 below nominal (10 sd: systematic).
+const SLACK: [f64; 3] = [0.015, 0.008, 0.006];
 
 #[derive(Clone, Debug, Default)]
 pub struct Reading {
@@ -492,9 +495,10 @@ fn evaluate(job: &Job, what: &str, n: u64, cell: &Cell, seed: u64, out: &mut Job
     };
     row["sd_all_trials"] = json!(sd_all);
     row["sd_rel_err"] = json!(sd);
-    let sd_limit = 1.2 * rse * (1.0 + 6.0 / (2.0 * t as f64).sqrt());
+    // calibrated: the central-99 % sd is at most 1.03 x the advertised RSE over all cells of the unchanged tree at T = 20 000
+    let sd_limit = 1.1 * rse * (1.0 + 6.0 / (2.0 * t as f64).sqrt());
     if sd > sd_limit + 1e-12 && cell.exact < t {
-        fail("C01.spread", format!("{job:?} {what} n={n}: sd of relative error (central 99 %) {sd:.5} over {t} trials exceeds 1.2 x advertised RSE {rse:.5} (+ sampling margin) = {sd_limit:.5}"));
+        fail("C01.spread", format!("{job:?} {what} n={n}: sd of relative error (central 99 %) {sd:.5} over {t} trials exceeds 1.1 x advertised RSE {rse:.5} (+ sampling margin) = {sd_limit:.5}"));
     }
     // coverage
     for s in 0..3 {
